@@ -68,6 +68,21 @@ example : (read (advance (init 100 30) 80) 10).2.deadline ≤ (read (advance (in
 /-- the receive timeout expiring before the deadline is NOT reported as `TimedOut` by `read_timeout` -/
 example : (read (advance (init 100 30) 20) 10).1 = .wouldBlock := by decide
 
+/-- on scenarios: whenever the read that ends a scenario reports `TimedOut`, the clock has reached `d` -/
+theorem C13_timedout_sound_run (d rt : Nat) (pre : List (Nat × Ev))
+    (hpre : ∀ e ∈ pre, wd_readPos e.2 = true) (t n : Nat)
+    (h : (read (advance (wd_exec (init d rt) pre) t) n).1 = .timedOut) :
+    d ≤ (read (advance (wd_exec (init d rt) pre) t) n).2.now := by
+  have r : Reach (init d rt) (advance (wd_exec (init d rt) pre) t) :=
+    (wd_exec_reach _ pre hpre).step (.adv _ t)
+  have h1 := C13_timedout_sound r (n := n) (s' := (read (advance (wd_exec (init d rt) pre) t) n).2)
+    (by rw [← h])
+  rw [wd_read_deadline, (C13_invariant r).2.2.2.2.2] at h1
+  exact h1
+
+example : 100 ≤ (read (advance (wd_exec (init 100 30) [(10, .send 4), (60, .read 9)]) 95) 9).2.now :=
+  C13_timedout_sound_run 100 30 _ (by decide) 95 9 (by decide)
+
 /-- with the sender held, `Ok(0)` reaches the caller only if the peer closed, the socket is not
     shut and the deadline has not been reached; the watchdog then stands down without ever
     touching the socket -/
@@ -248,6 +263,13 @@ theorem C13_after_deadline_immediate {d rt : Nat} {s : St} (r : Reach (init d rt
     (hx : s.hasTx = true) (hd : s.deadline ≤ s.now) :
     (read s n).2.now = s.now ∧ ((∃ k, (read s n).1 = .data k) ∨ (read s n).1 = .timedOut) :=
   wd_read_immediate (wd_inv_of_init r) n hx hd
+
+/-- the form with the watchdog's state: armed or fired, deadline reached ⇒ the read does not block
+    (also when the response has been dropped after the firing) -/
+theorem C13_after_deadline_immediate' {d rt : Nat} {s : St} (r : Reach (init d rt) s) (n : Nat)
+    (hw : s.wd = .waiting ∨ s.wd = .fired) (hd : s.deadline ≤ s.now) :
+    (read s n).2.now = s.now ∧ (read s n).1 ≠ .wouldBlock :=
+  wd_read_shut_immediate n (wd_fire_due_shut (wd_inv_of_init r) hd hw)
 
 /-- the response is alive exactly when the watchdog is armed or has fired -/
 theorem C13_alive_armed_or_fired {d rt : Nat} {s : St} (r : Reach (init d rt) s)
